@@ -63,6 +63,7 @@ type Config struct {
 	IteCap        int // arrays up to this length use ite chains for symbolic indices
 	ConcCap       int // max distinct values at a concretisation site
 	StopOnFail    bool
+	Replace       map[string]string // function (full name) -> harness function (name in the target package) executed instead
 	Merge         map[string]bool // functions executed in merge mode (all callee paths folded into one state)
 }
 
